@@ -74,3 +74,18 @@ func (j *JWorld) JRunFullSyncFailing(h *server.VHist, src, sink string, failAt i
 	panicked = runJob(jb)
 	return j.lastResult(jc.ID).LastError, panicked, nil
 }
+
+// JJob is the job object a trigger of a stored job holds: built once (as the scheduler does when the job is added or
+// the hub starts) and run many times; what it carries from one run to the next is part of the behaviour.
+type JJob struct{ jb *job }
+
+func (j *JWorld) JLoadStoredJob(id string) (*JJob, error) {
+	jb, err := j.reloadJob(id)
+	if err != nil {
+		return nil, err
+	}
+	return &JJob{jb: jb}, nil
+}
+
+// RunSync runs the job synchronously the way its trigger would; a panic is reported as text.
+func (x *JJob) RunSync() string { return runJob(x.jb) }
